@@ -2,7 +2,7 @@
 import math, random
 from fractions import Fraction
 from . import core, sketchcheck
-from .sketchgen import Builder, mapspec, STORES, rand_values, ulps, oracle_quantile_unit
+from .sketchgen import Builder, mapspec, STORES, rand_values, ulps, oracle_quantile_unit, spec_list
 from .core import f2h, nextafter
 
 def build(rng, tier, facts, edges, name, nmax):
@@ -51,7 +51,7 @@ def build(rng, tier, facts, edges, name, nmax):
 def run(tier, seed):
     rng = random.Random(seed)
     ok, log = core.build_vrun()
-    specs = [mapspec(rng)[0] for _ in range(18 if tier == "quick" else 80)]
+    specs = spec_list(rng, 18 if tier == "quick" else 80)
     facts = sketchcheck.learn_specs("C01", specs) if ok else {}
     edges = sketchcheck.learn_edges("C01", facts, rng) if ok else {}
     n = 300 if tier == "quick" else 6000
